@@ -29,7 +29,7 @@ import os
 import re
 from fractions import Fraction
 
-REPO = os.environ.get('QUANTITY_REPO', '/repo')
+REPO = (os.environ.get('QUANTITY_REPO') or '/repo')
 SOURCE = 'src/quantity/predefined.py'
 
 # fixed identities of the units in the generated file
